@@ -56,6 +56,7 @@ type Contract struct {
 	Harness     bool
 	Inlines     []string
 	Outer       int      // unroll bound of outermost loops (0: same as every loop)
+	NoFrame     bool     // no frame is specified: the unit's writes are not checked against one, and the contract cannot be used by callers
 	Cuts        bool     // loops iterating beyond the unroll bound are cut, not asserted absent (the bound restricts the inputs)
 	Abstracts   []string // spec functions used through their contract (result = uninterpreted function of the arguments) in this harness
 	Bounded     string // description of the input-domain bound of a bounded harness
@@ -76,7 +77,7 @@ type Contract struct {
 }
 
 var clauseKW = map[string]bool{"func": true, "requires": true, "ensures": true, "modifies": true, "loop": true,
-	"trusted": true, "inline": true, "nilable": true, "noalloc": true, "alloc-bounded": true, "use": true, "decreases": true, "opaque": true, "harness": true, "inlines": true, "abstracts": true, "cuts": true, "outer": true, "bounded": true, "extern": true, "import": true}
+	"trusted": true, "inline": true, "nilable": true, "noalloc": true, "alloc-bounded": true, "use": true, "decreases": true, "opaque": true, "harness": true, "inlines": true, "abstracts": true, "cuts": true, "noframe": true, "outer": true, "bounded": true, "extern": true, "import": true}
 
 // parseContractFile extracts the contracts of one file.
 // contractImports collects `//@ import alias "path"` directives of a contract file.
@@ -199,6 +200,8 @@ func parseContractFile(path string, src []byte) ([]*Contract, string, error) {
 				return nil, "", fmt.Errorf("%s:%d: outer <unroll>", path, itemLine[k])
 			}
 			cur.Outer = n
+		case "noframe":
+			cur.NoFrame = true
 		case "cuts":
 			cur.Cuts = true
 		case "abstracts":
